@@ -130,9 +130,9 @@ def lp_items(pid, tier, seed):
             I.family_W(big=False),
             lambda i: optvecs(True, ((False, False), (False, True)),
                               none + [[("maxsize", ())]]))
-        add("W 11 students x (0,0) x {maxsize, mincost}",
+        add("W 11 students (incl. 11 x 11 with pairs (1,11),(11,1)) x (0,0),(0,1) x {maxsize, mincost}",
             [x for x in I.family_W() if x.ns == 11],
-            lambda i: optvecs(True, ((False, False),),
+            lambda i: optvecs(True, ((False, False), (False, True)),
                               [[("maxsize", ())], [("mincost", ())]]))
         if thorough:
             add("B two-sided x P4 x pc x stab x {none}",
@@ -188,6 +188,10 @@ def lp_items(pid, tier, seed):
              for (ns, np_, nl, sp, le, lp) in I.Q_STRUCTS
              for _, pq, lq3 in I.quota_profiles3(ns, np_, nl, le)],
             lambda i: optvecs(True, DIAG2, pairs))
+        add("W2 two-digit ids on both sides (11 x 11) x (0,0),(0,1) x {maxsize, mincost 1 1}",
+            I.family_W2(),
+            lambda i: optvecs(True, ((False, False), (False, True)),
+                              [[("maxsize", ())], [("mincost", (1, 1))]]))
         add("HR two-sided x P x (pc x stab x {none}; (0,0),(1,1) x {9 default singles, mincost 1 1, minsqcost 0 1})",
             I.family_HR(True, sizes=I.HR_SIZES[:6]),
             lambda i: optvecs(True, ALL4, none) + optvecs(True, DIAG2, defaults +
@@ -235,6 +239,9 @@ def lp_items(pid, tier, seed):
         add("HR two-sided x P x pc x -stab x {none,maxsize,minsize}",
             I.family_HR(True, sizes=I.HR_SIZES[:6]),
             lambda i: optvecs(True, st, sizecrit))
+        add("F4 (student lists over four projects) x {unit,cap2} x -stab x {none,maxsize}",
+            I.family_F4(profiles=("unit", "cap2")),
+            lambda i: optvecs(True, ((False, True),), none + [[("maxsize", ())]]))
         if thorough:
             add("B two-sided x P4 x pc x -stab x {none,maxsize,minsize}",
                 I.family_B(True), lambda i: optvecs(True, st, sizecrit))
@@ -283,6 +290,11 @@ def lp_items(pid, tier, seed):
              for (ns, np_, nl, sp, le, lp) in I.Q_STRUCTS
              for _, pq, lq3 in I.quota_profiles3(ns, np_, nl, le)],
             lambda i: [(True, False, False, tuple(c), (4,)) for c in defaults])
+        add("A(2,3) nl=1 two-sided x {unit} x (0,0) x {gre, gen, gre 2, gen 2} (profiles with a zero strictly inside need rank 3)",
+            with_profiles(structs_small(True, [(2, 3)], (1,)), ("unit",)),
+            lambda i: optvecs(True, ((False, False),),
+                              [[("gre", ())], [("gen", ())]] +
+                              ([[("gre", (2,))], [("gen", (2,))]] if ref.R(i) >= 2 else [])))
         wc = [[("mincost", (1, 2))], [("mincost", (2, 1))],
               [("minsqcost", (1, 2))], [("minsqcost", (2, 1))]]
         add("HR (3,2)%s two-sided x {h1lq2uq3,lq1uq2%s} x (0,0) x weighted cost criteria (1,2),(2,1) "
